@@ -81,6 +81,8 @@ type c08env struct {
 	sharedG gattr
 	sorted  slog.Attr // another shared Group whose members are already in key order
 	sortedG gattr
+	inline  slog.Attr // a shared Group under the empty key (its members print without a prefix), members out of order
+	inlineG gattr
 	long    string // a value that makes the record longer than the initial buffer of a print context
 	err     error
 	std     []*log.Logger     // a std log bridge per logger
@@ -109,6 +111,13 @@ func c08Setup(g *rng, nLoggers int) *c08env {
 		{key: "c", val: gval{kind: "bool", goVal: false, tok: "B:0"}},
 	}}}
 	e.sorted = toAttrs([]gattr{e.sortedG})[0]
+	e.inlineG = gattr{key: "", isGroup: true, val: gval{kind: "group", items: []gattr{
+		{key: "zeta", val: gval{kind: "int", goVal: 26, tok: "I:26"}},
+		{key: "mid", val: gval{kind: "string", goVal: "m", tok: "S:" + hxs("m"), text: "m"}},
+		{key: "alpha", val: gval{kind: "bool", goVal: true, tok: "B:1"}},
+		{key: "mid", val: gval{kind: "int", goVal: 13, tok: "I:13"}},
+	}}}
+	e.inline = toAttrs([]gattr{e.inlineG})[0]
 	e.long = strings.Repeat("0123456789abcdef", 100) // 1600 bytes
 	formats := []string{"j", "l", "c"}
 	for i := 0; i < nLoggers; i++ {
@@ -151,6 +160,8 @@ func toAttrsShared(as []gattr, e *c08env) []slog.Attr {
 			out = append(out, e.shared)
 		} else if a.key == "ord" && a.isGroup {
 			out = append(out, e.sorted)
+		} else if a.key == "" && a.isGroup {
+			out = append(out, e.inline)
 		} else {
 			out = append(out, toAttrs([]gattr{a})[0])
 		}
@@ -176,6 +187,8 @@ func (e *c08env) attrsOf(c c08call) []gattr {
 	case 7:
 		// a top-level attribute named "time" holding a time.Time (printed like the record's own timestamp), last in sort order
 		as = append(as, gattr{key: "time", val: gval{kind: "tstamp", goVal: time.Date(2024, 5, 6, 7, 8, 9, 123456000, time.UTC), tok: "TS:" + hxs("@")}}) // the loggers' layout is "@"
+	case 8:
+		as = append(as, e.inlineG)
 	case 6:
 		// a group that has slots but no member (sorted last): nothing of it may be left behind for the next record
 		as = append(as, gattr{key: "zz", isGroup: true, val: gval{kind: "group", items: []gattr{{nilAttr: true}}}})
@@ -244,7 +257,7 @@ func c08Stress(seed uint64, tier string, o c08out) {
 		progs := make([][]c08call, G)
 		for gi := range progs {
 			for i := 0; i < N; i++ {
-				c := c08call{logger: g.intn(nLoggers), verb: []int{0, 1, 2, 3, 4, 6, 6, 7, 8, 9, 9}[g.intn(11)], msg: c08Msgs[g.intn(len(c08Msgs))], shape: g.intn(8), id: fmt.Sprintf("g%d-c%d", gi, i)}
+				c := c08call{logger: g.intn(nLoggers), verb: []int{0, 1, 2, 3, 4, 6, 6, 7, 8, 9, 9}[g.intn(11)], msg: c08Msgs[g.intn(len(c08Msgs))], shape: g.intn(9), id: fmt.Sprintf("g%d-c%d", gi, i)}
 				if c.msg != "" || c.verb != 4 {
 					c.msg = fmt.Sprintf("call %s. %s", c.id, c.msg)
 				}
@@ -281,6 +294,34 @@ func c08Stress(seed uint64, tier string, o c08out) {
 		desc := map[string]any{"round": round, "goroutines": G, "calls_per_goroutine": N, "loggers": nLoggers, "formats": strings.Join(e.formats, ""), "seed": seed}
 		for _, p := range panics {
 			o.violate(violation{What: "a log call panicked while other goroutines were logging", Input: desc, Actual: p})
+		}
+		// the attribute values the goroutines shared were only read: their member lists are as the caller built them
+		for _, sh := range []struct {
+			a    slog.Attr
+			g    gattr
+			what string
+		}{{e.shared, e.sharedG, "Group(\"grp\", …)"}, {e.sorted, e.sortedG, "Group(\"ord\", …)"}, {e.inline, e.inlineG, "Group(\"\", …)"}} {
+			var now, built []string
+			if items, ok := sh.a.Value().(slog.Attrs); ok {
+				for _, m := range items {
+					if m == nil {
+						now = append(now, "<nil>")
+					} else {
+						now = append(now, m.Key())
+					}
+				}
+			}
+			for _, m := range toAttrs(sh.g.val.items) {
+				if m == nil {
+					built = append(built, "<nil>")
+				} else {
+					built = append(built, m.Key())
+				}
+			}
+			if fmt.Sprint(now) != fmt.Sprint(built) {
+				o.violate(violation{What: "a caller-owned attribute list shared between goroutines was rewritten by the library while records were formatted",
+					Input: map[string]any{"shared_value": sh.what, "round": round, "goroutines": G}, Expected: fmt.Sprint(built), Actual: fmt.Sprint(now)})
+			}
 		}
 		// what each call produces when issued alone (the same environment, one goroutine)
 		want := make([]map[string]int, nLoggers)
